@@ -44,6 +44,12 @@ def _menu():
         m.append((name, method, LIMITS))
     m.append(('0', 0, [None]))
     m.append(('5.5', 5.5, [None]))
+    # the constant is any number: infinite, negative, a numpy scalar (an infinite constant is a value to fill with, not 'nothing to fill with')
+    m.append(('inf', float('inf'), [None]))
+    m.append(('-inf', -np.inf, [None]))
+    m.append(('-1', -1, [None]))
+    m.append(('np3', np.int64(3), [None]))
+    m.append(('bfill+inf', ['bfill', np.float64('inf')], [None]))
     # a constant WITH a limit: which NaN cells pandas then fills is not stated (DIFF = only the clauses that do not depend on it: the array result equals
     # the values of the pandas result, no non-NaN cell changes, the argument is untouched)
     m.append(('0 limit', 0, [1, 2]))
@@ -158,7 +164,7 @@ def model(cols, n, method):
                 keep = list(range(first, len(kept)))
             kept = [kept[i] for i in keep]
             cols = [[c[i] for i in keep] for c in cols]
-        elif isinstance(s, (int, float)):
+        elif isinstance(s, (int, float, np.integer, np.floating)):
             cols = [m_const(c, float(s)) for c in cols]
         else:
             raise ValueError(s)
